@@ -730,15 +730,16 @@ impl<'a> MCtx<'a> {
         Some(Mutant { doc, label: self.label("5.6.1", &s.class, "wrong-literal-type") })
     }
     /// an integer literal outside the signed 32-bit range where `Int` is expected (spec 3.5.1 input coercion inside
-    /// 5.6.1; reference predicate `Valid.rule_int32`, id `5.6.1-int32`): argument of a field or directive, input field,
-    /// list item, single value for a list, variable default. One class for all sites (`what` names the site).
+    /// 5.6.1 — `Valid.leafCoercible` requires the range since fix e3584a3, so this is an ordinary 5.6.1 fault the real
+    /// checker must report as TypeMismatch): argument of a field or directive, input field, list item, single value
+    /// for a list, variable default. Class = the site's class + `/int32`.
     pub fn int_literal_outside_32_bit_range(&mut self) -> Option<Mutant> {
         let c = self.val_sites(|s, v| s.ty.unwrapped() == "Int" && (is_leaf_literal(v) || matches!(v, Val::Null(_))));
         let s = pick(self.rng, &c)?;
         let text = OUT_OF_INT32[self.rng.below(OUT_OF_INT32.len())];
         let mut doc = self.doc.clone();
         *val_mut(&mut doc, &s.owner, &s.inner) = Val::Int(text.into(), p0());
-        Some(Mutant { doc, label: self.label("5.6.1-int32", "int-position", "int-literal-outside-32-bit-range") })
+        Some(Mutant { doc, label: self.label("5.6.1", &format!("{}/int32", s.class), "int-literal-outside-32-bit-range") })
     }
     pub fn bad_enum_member(&mut self) -> Option<Mutant> {
         let sch = self.sch;
@@ -1363,7 +1364,7 @@ impl<'a> MCtx<'a> {
     }
 }
 
-pub const MUTATIONS: [&str; 37] = [
+pub const MUTATIONS: [&str; 38] = [
     "rename-field",
     "subselection-on-leaf",
     "drop-subselection",
@@ -1373,6 +1374,7 @@ pub const MUTATIONS: [&str; 37] = [
     "drop-required-argument",
     "drop-required-directive-argument",
     "wrong-literal-type",
+    "int-literal-outside-32-bit-range",
     "bad-enum-member",
     "unknown-input-field",
     "duplicate-input-field",
@@ -1414,6 +1416,7 @@ pub fn apply(name: &str, ctx: &mut MCtx) -> Option<Mutant> {
         "drop-required-argument" => ctx.drop_required_argument(),
         "drop-required-directive-argument" => ctx.drop_required_directive_argument(),
         "wrong-literal-type" => ctx.wrong_literal(),
+        "int-literal-outside-32-bit-range" => ctx.int_literal_outside_32_bit_range(),
         "bad-enum-member" => ctx.bad_enum_member(),
         "unknown-input-field" => ctx.unknown_input_field(),
         "duplicate-input-field" => ctx.duplicate_input_field(),
